@@ -213,12 +213,19 @@ def fork_case(db_path, prefix, victim, kill_at, timeout=60):
   return out
 
 
-PENDING = {'checked': 0, 'found': []}
+PENDING = {'checked': 0, 'found': [], 'journal_modes': []}
 
 
 def drain_pending(ctx, case):
   ctx.count('answered_calls_checked_for_pending_writes', PENDING['checked'])
   PENDING['checked'] = 0
+  for mode in PENDING['journal_modes']:
+    ctx.count('journal_mode_observed:' + mode)
+    if mode in ('memory', 'off'):
+      ctx.violation(f'no-crash-safe-journal:journal_mode={mode}',
+                    f'the live server connection runs with PRAGMA journal_mode={mode}: a transaction interrupted by a '
+                    'process death while its pages are being written to the database file cannot be rolled back', case)
+  PENDING['journal_modes'].clear()
   for op, out, pend in PENDING['found'][:3]:
     ctx.violation(f'acknowledged-write-not-committed:{op}',
                   f'after {op} ({out}) was answered the SQLite file lacks changes the server already shows '
@@ -247,6 +254,14 @@ def reference_state(tmp, calls, tag):
     if pend:
       PENDING['found'].append((c.get('op'), outs[-1], pend))
   snap = S.snapshot(sv, ['o', 'p'])
+  # how the server's own connection journals its transactions (asked of the live connection,
+  # after real traffic): without an on-disk rollback journal or WAL a process death in the
+  # middle of a commit cannot be undone
+  try:
+    mode = str(sv.datastore._connection.exec_driver_sql('PRAGMA journal_mode').scalar()).lower()
+    PENDING['journal_modes'].append(mode)
+  except Exception:  # pylint: disable=broad-except
+    pass
   try:
     sv.datastore._connection.close()
     sv.datastore._engine.dispose()
@@ -451,6 +466,11 @@ def run_item(ctx, tmp, pname, vname, only_k=None):
 def run_shard(ctx):
   tmp = tempfile.mkdtemp(prefix='vv-c05-', dir=os.environ.get('VV_TMP'))
   try:
+    if ctx.tier != 'thorough':
+      # quick tier: first a thin slice of the syscall-level injector (one item per shard,
+      # three kill points inside SQLite's own commit protocol), inside the time budget
+      from vv import c05_strace
+      c05_strace.run(ctx, tmp, sample=3)
     items = all_items()
     rot = (ctx.seed * 7) % len(items)
     items = items[rot:] + items[:rot]
